@@ -13,6 +13,7 @@ func init() {
 			Harness{Fn: "ZZC07CheckFiles", Quick: p("FILES", 2), Thorough: p("FILES", 3), Expect: []string{"files-ok", "files-unformatted", "witness:end"}},
 		)},
 		Assumptions: []string{
+			"ZZC07CheckFiles: evy fmt -c over 1..FILES files (plain and txtar) in every order",
 			"model file system: a map path -> (bytes, mode); os.ReadFile/CreateTemp/Create/OpenFile/WriteFile/Stat/Chmod/Rename/Remove and (*os.File).Write/Close/Chmod/Sync/Stat are stubs bound to it; rename is atomic; a failing write leaves half of the data behind",
 			"the k-th file-system call fails with ENOSPC/EIO/EACCES (single fault), or the process is killed after the k-th call; permission bits are a symbolic 9-bit value with the owner-read bit set",
 			"'complete formatted text' = the output of main.format on the same bytes (formatter correctness is C06/C07)",
